@@ -118,6 +118,9 @@ def finish(ctx: Ctx, level_text: str, trusted: list[str], assumptions: list[str]
 
     rc = 0
     vdir = VERIF / "evidence" / "violations"
+    if write_evidence and vdir.is_dir():
+        for old_f in vdir.glob(f"{ctx.pid}-*.json"):
+            old_f.unlink()  # replay files always describe the latest run on the real tree
     if new:
         rc = 1
         vdir.mkdir(parents=True, exist_ok=True)
